@@ -24,7 +24,7 @@ type c10Case struct {
 
 var (
 	c10Regs       = []string{"plain", "plain+1rotated", "plain+2rotated", "plain+empty-rotated", "public", "public-with-secret-hash", "confidential-empty-hash", "oidc-basic", "oidc-post", "oidc-none", "oidc-private_key_jwt", "oidc-client_secret_jwt", "oidc-unset", "special-chars"}
-	c10Transports = []string{"basic", "post", "both", "id-only", "nothing", "basic-malformed", "basic-unencoded", "assertion", "assertion-wrong-key", "assertion+basic", "basic-id-only+body-secret", "assertion-expired", "assertion-not-yet-valid", "query-credentials"}
+	c10Transports = []string{"basic", "post", "both", "id-only", "nothing", "basic-malformed", "basic-unencoded", "assertion", "assertion-wrong-key", "assertion+basic", "basic-id-only+body-secret", "assertion-expired", "assertion-not-yet-valid", "query-credentials", "other-client-basic+query-client_id", "assertion-aud-prefix"}
 	c10Secrets    = []string{"current", "rotated1", "rotated2", "wrong", "empty", "other-clients", "current-prefix", "current+suffix"}
 	c10Endpoints  = []string{"token/client_credentials", "token/password", "token/refresh_token", "token/authorization_code", "token/device_code", "token/jwt-bearer", "revoke", "par", "device_auth"}
 )
@@ -134,11 +134,22 @@ func c10Auth(w *World, c c10Case, id string, secrets map[string]string) Auth {
 	case "assertion-expired":
 		// correctly signed with the registered key, but expired a minute ago
 		return Auth{Mode: "omit", Extra: url.Values{"client_assertion_type": {"urn:ietf:params:oauth:client-assertion-type:jwt-bearer"}, "client_assertion": {c10AssertionAt(w, id, "ec256b", "jti-attempt", -10*time.Minute, 0, -time.Minute)}}}
+	case "assertion-aud-prefix":
+		// correctly signed, but addressed to a proper prefix of the token URL (another tenant / the bare host)
+		now := w.Now()
+		as := signJWT(ecKey("ec256b"), "ES256", "ck-1", map[string]any{"iss": id, "sub": id, "aud": TokenURL[:len(TokenURL)-3], "exp": now.Add(5 * time.Minute).Unix(), "iat": now.Unix(), "jti": "jti-attempt"}, nil)
+		return Auth{Mode: "omit", Extra: url.Values{"client_assertion_type": {"urn:ietf:params:oauth:client-assertion-type:jwt-bearer"}, "client_assertion": {as}}}
 	case "assertion-not-yet-valid":
 		return Auth{Mode: "omit", Extra: url.Values{"client_assertion_type": {"urn:ietf:params:oauth:client-assertion-type:jwt-bearer"}, "client_assertion": {c10AssertionAt(w, id, "ec256b", "jti-attempt", 0, 10*time.Minute, 20*time.Minute)}}}
 	case "query-credentials":
 		// client_id and client_secret travel in the URL query string of the POST request: neither HTTP Basic nor the body
 		return Auth{Mode: "omit", Query: url.Values{"client_id": {id}, "client_secret": {sec}}}
+	case "other-client-basic+query-client_id":
+		// another confidential client authenticates correctly (HTTP Basic) and names the client under test in the URL
+		// query only; the body carries no client_id (pushed-authorization endpoint: whose request is it?)
+		a := BasicAuth("O", secrets["other-clients"])
+		a.Query = url.Values{"client_id": {id}}
+		return a
 	case "basic-id-only+body-secret":
 		// the id travels in a Basic header with an empty password, the secret in the body, no body client_id
 		a := BasicAuth(id, "")
@@ -159,8 +170,10 @@ func c10RefAuth(c c10Case) (ok bool, dc bool) {
 	viaBasic := c.Transport == "basic" || c.Transport == "both" || c.Transport == "basic-unencoded" || c.Transport == "assertion+basic"
 	viaPost := c.Transport == "post"
 	switch c.Transport {
-	case "assertion-expired", "assertion-not-yet-valid":
+	case "assertion-expired", "assertion-not-yet-valid", "assertion-aud-prefix":
 		return false, false // not a valid assertion, whatever the registration
+	case "other-client-basic+query-client_id":
+		return false, false // the client under test has shown nothing
 	case "query-credentials":
 		if c.Reg == "public" || c.Reg == "public-with-secret-hash" || c.Reg == "oidc-none" {
 			return false, true // a public client is only identified: where the identifier may travel is not pinned
@@ -328,6 +341,14 @@ func c10Run(c c10Case, res *WRes) {
 	case c.Endpoint == "par":
 		o = w.PAR(form, auth)
 		succeeded = o.Str("request_uri") != ""
+		if c.Transport == "other-client-basic+query-client_id" && succeeded {
+			// processed in whose name? a request stored for the client that did authenticate is none of X's business
+			if ps, ok := w.Mem.PARSessions[o.Str("request_uri")]; ok && ps.GetClient().GetID() != id {
+				succeeded = false
+				res.note("push-stored-for-the-authenticated-client")
+				return
+			}
+		}
 	case c.Endpoint == "device_auth":
 		o = w.DeviceAuth(form, auth)
 		succeeded = o.Str("device_code") != ""
@@ -417,6 +438,9 @@ func init() {
 				for _, skip := range []bool{false, true} {
 					if skip && j.Endpoint != "token/jwt-bearer" && !(tr == "nothing" || se == "wrong") {
 						continue
+					}
+					if tr == "other-client-basic+query-client_id" && (j.Endpoint != "par" || se != "current") {
+						continue // only the pushed-authorization endpoint takes the client from a request parameter
 					}
 					c := c10Case{Reg: j.Reg, Transport: tr, Secret: se, Endpoint: j.Endpoint, SkipAuth: skip}
 					n := len(res.Viol)
